@@ -55,6 +55,30 @@ def exec_config(case):
         if isinstance(r, QTensor):
             O.check_invariant(out, f"config/{name}/{qprog.kind_key(q)}", r)
             qprog.move_clause(out, f"config/{name}/{qprog.kind_key(q)}", q, r, None)
+    # a copy ACROSS devices: the destination lives on the meta device (the only other device here), the source on the cpu. The
+    # float program is valid (a tensor without storage has nothing to receive); the destination stays one consistent meta tensor
+    if not out.failures and case.get("seed", 0) % 2 == 0:
+        for sname, src in (("same-config", q), ("plain", x)):
+            m = cut(lambda: q.to("meta"))
+            if isinstance(m, Raised) or not isinstance(m, QTensor):
+                break
+            r = cut(lambda: m.copy_(src))
+            tag = f"config/copy_-into-meta-from-{sname}/{qprog.kind_key(q)}"
+            if isinstance(r, Raised):
+                out.fail(f"{tag}/raises:{r.type}", r.text)
+                continue
+            # (values cannot be read on the meta device: the part of the invariant that can be stated there)
+            def inner(t):
+                names_, _ = t.__tensor_flatten__()
+                for n_ in names_:
+                    v_ = getattr(t, n_)
+                    if hasattr(v_, "__tensor_flatten__"):
+                        yield from ((f"{n_}.{k_}", w_) for k_, w_ in inner(v_))
+                    else:
+                        yield n_, v_
+            devs = {n_: str(v_.device) for n_, v_ in inner(m)}
+            if m.device.type != "meta" or any(d_ != "meta" for d_ in devs.values()) or tuple(m.shape) != tuple(q.shape) or m.dtype != q.dtype:
+                out.fail(f"{tag}/I/device", f"after copy_ the destination reports device {m.device}, shape {tuple(m.shape)}, dtype {m.dtype}; its inner tensors live on {devs}")
     return out
 
 
